@@ -5,12 +5,21 @@ HARNESS = 'harness/c01.py'
 TRUSTED_BASE = [
     'Lean 4.33 kernel; axioms propext, Classical.choice, Quot.sound only (audited per theorem each run)',
     'hand-written model lean/PysphVerif/Model/Nnps.lean (front end: cell size, acceptance test, brute force; '
-    'Grid-family stencil; linked-list storage; neighbour cache; octree pruning test), tied to the 12 compiled '
-    'classes by differential execution on dyadic-grid inputs, where double arithmetic is exact (harness/c01.py)',
+    'Grid-family stencil; linked-list storage; neighbour cache; octree pruning test and executable TreeInv check) '
+    'and Model/NnpsStore.lean (flatten / valid-cell index, BoxSort std::map index, DictBoxSort dict, chained hash '
+    'table of spatial_hash.h, CellIndexing packed sorted keys + run detection, ExtendedSpatialHash sub-cells / mask / '
+    'per-box cut, Morton key), tied to the 12 compiled classes by differential execution on dyadic-grid inputs, '
+    'where double arithmetic is exact (harness/c01.py)',
     'exact ordered-field arithmetic stands in for IEEE doubles in the theorems (rounding only matters inside '
     'the 2^-40 band the property statement allows)',
-    'the octree builder, the hash tables / Morton keys of the SubGrid and Strat families are not modelled: '
-    'those classes are covered by the correspondence with the exact oracle only',
+    'the octree BUILDER is not modelled: the real tree of every sampled run is dumped through the Python API of '
+    'pysph.base.octree (same builder, same particle array as OctreeNNPS._refresh) and the driver checks the '
+    'hypotheses of tree_query_exact (TreeInv, every index exactly once) on it in exact rational arithmetic; '
+    'OctreeNNPS.tree itself is not reachable from Python',
+    'the cid / nbr_boxes bookkeeping of the z-order classes and the Strat family are not proved: those classes are covered by '
+    'the correspondence with the exact oracle only',
+    'std::sort / std::map / Python dict are taken at their specification (sorted permutation; ordered unique keys; '
+    'finite map)',
     'cyarray update_min_max (min/max of an empty array are 0) is modelled, exercised by the tie',
 ]
 ASSUMPTIONS = [
@@ -30,15 +39,29 @@ DESIGN_REF = '6/C01'
 TECHNIQUE = 'Lean 4 proof over a hand-written model + exact differential execution on the dyadic grid'
 LEVEL_TEXT = ("Lean 4 theorems over every point cloud, every linearly ordered field and every radius scale "
               "(isNbr_symm, sq_lt_imp_axis_lt, floor_adj, grid_cover, exact_of_cover_nodup, nbrs_exact_grid, "
-              "nbrs_exact_grid_cellSize, ll_traverse_eq_bucket, cache_get_eq_find, tree_query_exact) about a "
-              "hand-written model of the neighbour search; the model is tied to all 12 compiled NNPS classes on "
-              "every run by exact differential execution (dyadic-grid inputs, ties included, cache on/off, after "
-              "update histories), and the property's own predicate is evaluated on the implementation with "
+              "nbrs_exact_grid_cellSize, flatten_inj, stencil_enumerates_valid, cell_in_range, ll_traverse_eq_bucket, "
+              "hash_get_eq_cell, pack_unpack, pack_inj, nbrs_exact_LinkedListNNPS / BoxSortNNPS / SpatialHashNNPS / "
+              "DictBoxSortNNPS / CellIndexingNNPS (under the explicit no-overflow guard) / ExtendedSpatialHashNNPS, "
+              "subgrid_cover, morton_key_bits, key_inj, cache_get_eq_find, tree_query_exact, tree_query_exact_checked) about a hand-written "
+              "model of the neighbour search and of each class's storage; the model is tied to all 12 compiled NNPS "
+              "classes on every run by exact differential execution (dyadic-grid inputs, ties included, cache on/off, "
+              "after update histories), the real octree of every sampled run is dumped and the hypotheses of the tree "
+              "theorem are checked on it, and the property's own predicate is evaluated on the implementation with "
               "exact integer arithmetic to produce replays.")
-LEVEL_NOTE = ("Proved: the Grid family (3x3x3 stencil with the code's cell size) and any tree satisfying TreeInv "
-              "return exactly the brute-force set; linked-list chains and the neighbour cache return what was "
-              "stored, for every insertion order / thread schedule. Not proved (correspondence only): hash-table "
-              "and Morton-key storage, the SubGrid and Strat families, the octree builder (TreeInv is a "
-              "hypothesis). Trusted: Lean kernel, the model (checked by the tie on ~1700 class runs per quick "
-              "run), exact-field arithmetic in place of doubles.")
+LEVEL_NOTE = ("Proved (all clouds, sizes, knobs): LinkedList (head/next chains over flatten_raw of the valid stencil "
+              "cells), BoxSort (std::map dense index), DictBoxSort (dict keyed by the integer triple), SpatialHash "
+              "(chained table, every hash function / table size >= 1, whatever collides), CellIndexing (sorted packed "
+              "keys, run detection, std::map lookup; ONLY under the guard that every key fits its bit fields and 32 "
+              "bits - ci_guard_necessary shows the aliasing without it), ExtendedSpatialHash exact mode (sub-cells c/H, "
+              "+-H mask, per-box ceil cut with the box's h_max) return exactly the brute-force set, without duplicates, "
+              "valid indices; the code's cell size covers every cut-off; any tree satisfying TreeInv is queried "
+              "exactly, and TreeInv + exactly-once is CHECKED on the real tree of each sampled run (a failure is "
+              "reported as a correspondence disagreement); linked-list chains and the neighbour cache return what was "
+              "stored for every insertion order / thread schedule. Still tie-only (correspondence with the exact "
+              "oracle): ZOrder / ExtendedZOrder (their Morton key is proved injective below 2^21 - key_inj - but the cid / nbr_boxes bookkeeping is not modelled), "
+              "StratifiedHash / StratifiedSFC, the approximate mode of ExtendedSpatialHash, the octree builders, "
+              "CellIndexing beyond the guard, the bounds computation that puts every particle into a valid cell "
+              "(cell_in_range proves the arithmetic step, the padded bounds are a hypothesis). Trusted: Lean kernel, "
+              "the model (checked by the tie on ~1700 class runs and ~1000 real-tree checks per quick run), "
+              "exact-field arithmetic in place of doubles.")
 TIMEOUT = {'quick': 1500, 'thorough': 3 * 3600}
